@@ -1,6 +1,7 @@
 SPECIFICATION Spec
 CONSTANTS
   CfgKind = "fixed"
+  UnitsPerMiB = 1048576
   CfgLimit = 4
   CfgSpike = 1
   TotalMem = 0
